@@ -1016,8 +1016,12 @@ func encodeIteratorOptions(opt *IteratorOptions) *internal.IteratorOptions {
 	}
 
 	// Fill value can only be a number. Set it if available.
-	if v, ok := opt.FillValue.(float64); ok {
+	switch v := opt.FillValue.(type) {
+	case float64:
 		pb.FillValue = proto.Float64(v)
+	case int64:
+		// fill(<integer>) parses to int64; the wire type is a double.
+		pb.FillValue = proto.Float64(float64(v))
 	}
 
 	// Set condition, if set.
